@@ -182,6 +182,16 @@ def run(ctx):
             H.ops.append(("h_write_stdout 0 %s %s" % (out, f_), [0], out))
         H.ops.append(("h_free 0", [0], None))
         hists.append(H)
+    # an input that is no alignment file at all (notes, a table) among the files of a read, in every position
+    for i in range(3 if ctx.quick else 12):
+        H = Hist(5000 + i, sc)
+        recs = gen.family(ctx.rng, ctx.rng.choice(["protein", "dna"]), ctx.rng.randint(2, 5), ctx.rng.choice([20, 60]), spice=False)
+        good = H.newfile(gen.fasta_text(recs))
+        junk = H.newfile("".join(ctx.rng.choice(["notes on this run\n", "sample\tcount\n", "12 34 56\n", "see the lab book, page 12\n"]) for _ in range(ctx.rng.randint(1, 300))))
+        order = [[good, junk], [junk, good], [good, junk, good]][i % 3]
+        H.ops = [("h_read 0 %s" % " ".join(order), [0], None), ("h_run 0 5 -1 -1 -1 1", [0], None), ("h_free 0", [0], None),
+                 ("h_read 1 %s" % junk, [1], None), ("h_free 1", [1], None)]
+        hists.append(H)
     from concurrent.futures import ThreadPoolExecutor
 
     def run_hist(H):
